@@ -95,12 +95,12 @@ def apply_mut(obj, mut, n):
 
 @st.composite
 def _case(draw, tier):
-    nvars = draw(st.integers(1, 3))
+    nvars = draw(st.sampled_from([1, 2, 3]))
     vars_ = [draw(mutable_values(tier)) for _ in range(nvars)]
-    nsites = draw(st.integers(1, 3))
+    nsites = draw(st.sampled_from([1, 2, 3]))
     ops = [draw(st.sampled_from(["eq", "in", "le", "ge", "getitem", "eq", "in"])) for _ in range(nsites)]
     steps = []
-    for _ in range(draw(st.integers(2, 10))):
+    for _ in range(draw(st.sampled_from([2, 4, 6, 8, 10]))):
         if draw(st.integers(0, 2)) == 0:
             steps.append(["mut", draw(st.integers(0, nvars - 1)), draw(st.sampled_from(MUTS)),
                           draw(st.integers(10, 99))])
